@@ -93,15 +93,27 @@ Definition unobservable_call (q : quirks) (k : case18) : bool :=
    bits 8/16/32/64: the result depends on quirk evalvalue / local import / remote import / macro
    bit 128: model ran out of fuel
    bit 256: status not comparable (unobservable library call in the model) *)
+(* q with one quirk switched off: detects results that need several quirks together *)
+Definition without (i : nat) (q : quirks) : quirks :=
+  {| q_evalvalue_full_scope := if Nat.eqb i 0 then false else q_evalvalue_full_scope q;
+     q_sandbox_local_import := if Nat.eqb i 1 then false else q_sandbox_local_import q;
+     q_sandbox_remote_import := if Nat.eqb i 2 then false else q_sandbox_remote_import q;
+     q_macro_full_scope := if Nat.eqb i 3 then false else q_macro_full_scope q |}.
+
+(* the result depends on quirk i: it alone changes the repaired result, or removing it from the
+   committed set changes the current result *)
+Definition depends (qcur : quirks) (i : nat) (only : quirks) (k : case18) (mq moff : mobs) : bool :=
+  negb (mobs_eqb (mobs_of only k) moff) || negb (mobs_eqb (mobs_of (without i qcur) k) mq).
+
 Definition classify (qcur : quirks) (k : case18) : Z :=
   let i : mobs := (c_st k, c_cls k, c_eff k) in
   let mq := mobs_of qcur k in
   let moff := mobs_of quirks_off k in
   (b2z (negb (mobs_eqb i mq)) 1 + b2z (negb (mobs_eqb mq moff)) 2 + b2z (negb (oracle k)) 4
-   + b2z (negb (mobs_eqb (mobs_of only_evalvalue k) moff)) 8
-   + b2z (negb (mobs_eqb (mobs_of only_local_import k) moff)) 16
-   + b2z (negb (mobs_eqb (mobs_of only_remote_import k) moff)) 32
-   + b2z (negb (mobs_eqb (mobs_of only_macro k) moff)) 64
+   + b2z (depends qcur 0 only_evalvalue k mq moff) 8
+   + b2z (depends qcur 1 only_local_import k mq moff) 16
+   + b2z (depends qcur 2 only_remote_import k mq moff) 32
+   + b2z (depends qcur 3 only_macro k mq moff) 64
    + b2z (match mq with (s, _, _) => Z.eqb s 2 end) 128
    + b2z (unobservable_call qcur k) 256)%Z.
 
